@@ -184,6 +184,13 @@ RunPoll(s, S, C, goodNmea, polls) ==
     LET r == RunFrom(s, S, C, goodNmea, 6 * Len(S) + 12) IN
     IF r.pc = "done" /\ polls > 0 THEN RunPoll([r EXCEPT !.pc = "b1"], S, C, goodNmea, polls - 1) ELSE r
 
+\* a caller under ERR_RAISE who catches the exception and carries on with the same reader / iterator: reading resumes where the
+\* rejected frame ended - exactly where an ERR_LOG reader would be after reporting it
+RECURSIVE RunResume(_, _, _, _, _)
+RunResume(s, S, C, goodNmea, catches) ==
+    LET r == RunFrom(s, S, C, goodNmea, 6 * Len(S) + 12) IN
+    IF r.pc = "raised" /\ catches > 0 THEN RunResume([r EXCEPT !.pc = "b1"], S, C, goodNmea, catches - 1) ELSE r
+
 (***************************************************************************)
 (* State predicates (used as invariants by the MC modules)                 *)
 (***************************************************************************)
